@@ -28,6 +28,7 @@ pub static INFO: PropInfo = PropInfo {
         ("tokens_roundtripped", 200),
         ("token_bytes_decoded_ok", 200),
         ("ack_ranges_64", 10),
+        ("renet_values_over_255_messages", 100),
     ],
     engines_quick: &["e1"],
     engines_thorough: &["e1", "e2", "e4"],
@@ -344,7 +345,21 @@ fn gen_ranges(r: &mut Rng, n: usize) -> Vec<Range<u64>> {
 fn gen_packet(r: &mut Rng) -> Packet {
     let sequence = r.boundary_varint();
     let channel_id = r.below(256) as u8;
-    match r.below(5) {
+    match r.below(6) {
+        5 => {
+            // hundreds of tiny messages in one packet (the message count needs more than one byte)
+            let n = *r.pick(&[255usize, 256, 257, 300, 511, 512, 590]);
+            let reliable = r.chance(1, 2);
+            if reliable {
+                let base = if r.chance(1, 2) { r.below(40) } else { 0 };
+                let messages = (0..n).map(|i| (base + (i as u64 % 60), Bytes::from(if r.chance(1, 8) { r.bytes(1) } else { Vec::new() }))).collect::<Vec<_>>();
+                // keep it within 1200 payload bytes: ids < 64 take one byte, length one byte
+                Packet::SmallReliable { sequence, channel_id, messages }
+            } else {
+                let messages = (0..n).map(|_| Bytes::from(if r.chance(1, 4) { r.bytes(1) } else { Vec::new() })).collect::<Vec<_>>();
+                Packet::SmallUnreliable { sequence, channel_id, messages }
+            }
+        }
         0 => {
             let n = r.urange(0, 8);
             let mut left = 1200usize;
@@ -482,6 +497,11 @@ pub fn one_run(ctx: &Ctx, out: &mut Outcome, run_seed: u64) {
                     Some(b) => match dec(&b) {
                         Ok(d) if d == v => {
                             out.count("renet_values_roundtripped");
+                            match &v {
+                                Packet::SmallReliable { messages, .. } if messages.len() > 255 => out.count("renet_values_over_255_messages"),
+                                Packet::SmallUnreliable { messages, .. } if messages.len() > 255 => out.count("renet_values_over_255_messages"),
+                                _ => {}
+                            }
                             out.max("renet_encoded_len", b.len() as u64);
                         }
                         other => {
